@@ -111,6 +111,14 @@ class C01(InputProp):
             fams.append(Product(W.SIGMA, [f[0] for f in FRAMES], name="pump"))
             fams.append(Product(W.SIGMA, ["a", " ", "\n"], [f[0] for f in FRAMES[:2]], name="pump2"))
             fams.append(Product(core, core, [f[0] for f in FRAMES[:2]], name="pump2"))
+        # every namespace name and alias that ANY bundled site knows, as a link prefix on EVERY site, with and without a database
+        names = set()
+        for l in LANGS:
+            si = get_siteinfo(l)
+            for ns in si["namespaces"].values():
+                names.update(x for x in (ns["*"], ns.get("canonical")) if x)
+            names.update(al["*"] for al in si.get("namespacealiases", []))
+        fams.append(Product(LANGS, sorted(names), ["db", "nodb"], name="lang-prefix"))
         self.space = Concat(*fams)
         # warm-up: one parse with templates, a reference and a table, so that every lazily imported module is loaded before the
         # first judged case (where the interpreter's recursion limit is hit depends on it: a replay in a fresh process must
@@ -118,6 +126,11 @@ class C01(InputProp):
         try:
             self.parse(title="Warm up", raw="{{T|a}} <ref>x</ref> <poem>p</poem>\n{|\n| c\n|}\n<pages index=a from=1 to=1/>", wikidb=LangDB("en", W.template_universe("{{{1}}}")), lang="en")
             self.parse(title="Warm up", raw="a", lang="en")
+            # ... and the process has served every bundled site before (state shared between the handlers of different sites
+            # is then the same in a worker and in a fresh replay process)
+            for l in LANGS:
+                self.parse(title="Warm up", raw="[[Talk:x]] {{T|a}}", wikidb=LangDB(l, W.template_universe("{{{1}}}")), lang=l)
+                self.parse(title="Warm up", raw="[[Talk:x]]", lang=l)
         except Exception:
             pass
         self.ctx = dict(W.CTX)
@@ -169,6 +182,10 @@ class C01(InputProp):
             lang = c[0]
             db = self.db(lang)
             text = self.ctx[c[1]] % W.localize([c[2]], self.si[lang])[0]
+        elif fam == "lang-prefix":
+            lang = c[0]
+            db = self.db(lang) if c[2] == "db" else None
+            text = "See [[%s:Sport]] and [[%s:x y|its label]].\n" % (c[1], c[1].lower())
         else:
             raise ValueError(fam)
         return text, db, lang
